@@ -1,6 +1,7 @@
 #!/usr/bin/env python
 """Module containing simulation result classes."""
 
+import copy
 import os.path
 from collections.abc import Iterable
 from typing import (Any, Dict, Iterator, List, Optional, Tuple, TypedDict,
@@ -1129,7 +1130,7 @@ class SimulationResults(JsonSerializable):
         # copy the Result objects from other
         if len(self) == 0:
             for name in other.get_result_names():
-                self._results[name] = other[name]
+                self._results[name] = copy.deepcopy(other[name])
         # Otherwise, we merge each Result from `self` with the Result from
         # `other`
         else:
